@@ -137,6 +137,8 @@ pub struct Conn {
     pub closed: bool,
     pub max_capacity: usize,
     pub decode_calls: u64,
+    /// most bytes the decoder left in the buffer when it asked for more input
+    pub max_retained: usize,
 }
 
 impl Conn {
@@ -151,6 +153,7 @@ impl Conn {
             closed: false,
             max_capacity: 0,
             decode_calls: 0,
+            max_retained: 0,
         }
     }
 
@@ -222,7 +225,10 @@ impl Conn {
                         return out;
                     }
                 }
-                Ok(None) => return out,
+                Ok(None) => {
+                    self.max_retained = self.max_retained.max(self.buf.len());
+                    return out;
+                }
                 Err(e) => {
                     out.closed = Some(e.to_string());
                     self.closed = true;
